@@ -417,9 +417,61 @@ def num_rule(ctx, P):
             ctx.check(r, ok, key(f, x), f.where(s["node"]), "`%s` is taken from the file and the reader can succeed without having tested it against 0 and the number of states" % x)
 
 
+def pron_rule(ctx, P):
+    """a dictionary line is added only with at least one phone: everything downstream reads dict_pron(w, 0)"""
+    from .. import symx
+    r = ctx.rule("NUM.pron-length", "the dictionary reader hands a line to dict_add_word only with a pronunciation length that is excluded from being zero on every value path to the call (a word without phones is refused: the lextree and the alignment read its first and last phone)", floor=1)
+    f = P.fn("dict_read_s3file", "dict.c")
+    ctx.touch(f)
+    cs = f.calls("dict_add_word")
+    if not cs:
+        raise AnalysisIncomplete("dict_read_s3file no longer calls dict_add_word")
+    def cst(p_):
+        """the value of a constant polynomial, None otherwise"""
+        return p_.get((), 0) if all(m_ == () for m_ in p_) else None
+    for c in cs:
+        loop = None
+        for a in f.ancestors(c):
+            if f.k(a) in ("While", "For", "Do"):
+                loop = a
+        pts = symx.loop_paths(f, loop, P) if loop is not None else symx.run_paths(f, P)
+        n = 0
+        bad = None
+        for pt in pts:
+            for ev_ in pt.events:
+                if ev_[0] != "call" or ev_[3] != c:
+                    continue
+                n += 1
+                Ns = ev_[2][3]
+                N = lin.p_parse(Ns)
+                ok = cst(N) is not None and cst(N) != 0
+                for k_, pol in pt.atoms.items():
+                    if ok or cst(N) is not None:
+                        break
+                    if k_[0] == "nz":
+                        ok = pol and lin.p_parse(k_[1]) == N
+                        continue
+                    if k_[0] not in ("==", "<"):
+                        continue
+                    D = lin.p_add(lin.p_parse(k_[1]), lin.p_parse(k_[2]), -1)      # A - B
+                    if k_[0] == "==":
+                        ok = (not pol) and (N == D or lin.p_add(N, D) == {})        # A != B and N is +-(A - B)
+                    elif pol:
+                        c_ = cst(lin.p_add(N, D))                                   # A < B: B - A >= 1; N = (B - A) + c
+                        ok = c_ is not None and c_ >= 0
+                    else:
+                        c_ = cst(lin.p_add(N, D, -1))                               # A >= B: N = (A - B) + c
+                        ok = c_ is not None and c_ >= 1
+                if not ok:
+                    bad = Ns
+        if n == 0:
+            raise AnalysisIncomplete("dict_read_s3file: no value path reaches dict_add_word")
+        ctx.check(r, bad is None, key(f, "pronlen@%d" % f.line(c)), f.where(c), "a line reaches dict_add_word with the pronunciation length `%s`, which nothing on the path excludes from being 0: a word without phones enters the dictionary and the first grammar or alignment that uses it reads a phone that is not there" % bad)
+
+
 # -------------------------------------------------------------------------------- growth loops
 def growth_rule(ctx, P):
-    r = ctx.rule("LOOP.growth", "a capacity that is doubled until it reaches a required size is positive when the loop is entered: every definition reaching the loop is a positive constant or a positive multiple of a value tested non-zero, and the doubled value cannot wrap to a non-positive one before it reaches the limit", floor=2)
+    r = ctx.rule("LOOP.growth", "a capacity that is doubled until it reaches a required size is positive when the loop is entered: every definition reaching the loop is a positive constant or a positive multiple of a value tested non-zero, and the doubled value cannot wrap to a non-positive one before it reaches the limit", floor=1)
     found = 0
     for f in P.repo_functions():
         if unit_of(f) in GENERATED:
@@ -500,7 +552,7 @@ def growth_rule(ctx, P):
                     ok = False
                     why = "`%s` is a %s: doubling it past %d wraps to a negative value before it reaches a limit that is only known to be below %s" % (x, t, 1 << bits - 1, _ub_of(f, cnd, limit))
             ctx.check(r, ok, key(f, x), f.where(w), "the loop doubles `%s` until it reaches `%s` but %s (no termination)" % (x, limit, why))
-    if found < 2:
+    if found < 1:
         raise AnalysisIncomplete("growth loops vanished (%d)" % found)
 
 
@@ -791,6 +843,7 @@ def run(ctx):
     ctx.control("SPAN", any(k.startswith("fx_span_bad:atoi") for k in col.bads) and any(k.startswith("fx_span_bad:strncmp") for k in col.bads) and not any(k.startswith("fx_span_good") for k in col.bads),
                 "fixture fx_span_bad (atoi and constant-length strncmp on a line of an s3file) must be reported, fx_span_good (length tested first) must not (got %s)" % col.bads)
     num_rule(ctx, P)
+    pron_rule(ctx, P)
     growth_rule(ctx, P)
     emit_rule(ctx, P)
     config_rule(ctx, P)
